@@ -175,7 +175,11 @@ func mountIndexer(defaultPath string) indexer {
 		case map[string]any:
 			t, ok := v["target"]
 			if ok {
-				return t.(string), nil
+				target, ok := t.(string)
+				if !ok {
+					return "", fmt.Errorf("%s: unexpected type %T for target", path, t)
+				}
+				return target, nil
 			}
 			return fmt.Sprintf("%s/%s", defaultPath, v["source"]), nil
 		default:
@@ -221,7 +225,11 @@ func envFileIndexer(y any, p tree.Path) (string, error) {
 		return value, nil
 	case map[string]any:
 		if pathValue, ok := value["path"]; ok {
-			return pathValue.(string), nil
+			path, ok := pathValue.(string)
+			if !ok {
+				return "", fmt.Errorf("%s: unexpected type %T for path", p, pathValue)
+			}
+			return path, nil
 		}
 		return "", fmt.Errorf("environment path attribute %s is missing", p)
 	}
